@@ -187,7 +187,7 @@ class MemTransport(asyncio.Transport):
 
     def _call_lost(self, exc):
         self.lost_called += 1
-        self.pipe.log.append(("lost", self.side, repr(exc), self._loop.time()))
+        self.pipe.log.append(("lost", self.side, repr(exc), self._loop.time(), getattr(self._loop, "iteration", 0)))
         try:
             self.protocol.connection_lost(exc)
         except BaseException as e:
@@ -252,7 +252,7 @@ class MemTransport(asyncio.Transport):
             return n
         if self.eof_sent and not self.eof_delivered:
             self.eof_delivered = True
-            self.pipe.log.append(("eof", self.side, self._loop.time()))
+            self.pipe.log.append(("eof", self.side, self._loop.time(), getattr(self._loop, "iteration", 0)))
             keep = peer._call_in("eof_received")
             if not keep and not peer.closing:
                 peer.close()
